@@ -161,6 +161,7 @@ contract(
         ("other-slots", f"forall(s, implies(s != some(self.currentSlotIdx), used({_br_rs}, s) == old(used({_br_rs}, s)) and "
                         f"usage({_br_rs}, s) == old(usage({_br_rs}, s))))"),
         ("filled", f"implies(result > 0, used({_br_rs}, some(self.currentSlotIdx)) == PG(self.project))"),
+        ("others", f"forall(o, 'Ref:ResourceScenario', implies(o != {_br_rs} and old(RSsep(o, {_br_rs})), LedgerSame(o) and RSsep(o, {_br_rs})))"),
         # C05: a booking happens only while the task's own and inherited limits admit it
         ("task-limits", "implies(result > 0, forall(j, implies(chain_in(self.property, j) and TLimOn(chain(self.property, j), self.scenarioIdx), "
                         "old(LimitsOkSpec(some(TLim(chain(self.property, j), self.scenarioIdx)), some(self.currentSlotIdx), True, resource.id)))))"),
